@@ -225,7 +225,11 @@ MoveProgs ==
             [k |-> "op", h |-> 2, f |-> "stack", a |-> <<Opnd(1), Opnd(1)>>, axis |-> 0],
             [k |-> "op", h |-> 2, f |-> "stack", a |-> <<Opnd(1), Opnd(1)>>, axis |-> -1],
             [k |-> "op", h |-> 2, f |-> "where", a |-> <<Opnd(1), [s |-> Q(9)]>>, cond |-> [sh |-> <<3>>, v |-> <<TRUE, FALSE, TRUE>>]],
-            [k |-> "op", h |-> 2, f |-> "where", a |-> <<Opnd(1), Opnd(1)>>, cond |-> [sh |-> <<2, 1>>, v |-> <<FALSE, TRUE>>]]}}
+            [k |-> "op", h |-> 2, f |-> "where", a |-> <<Opnd(1), Opnd(1)>>, cond |-> [sh |-> <<2, 1>>, v |-> <<FALSE, TRUE>>]],
+            \* the condition spelled as a 0/1 array of an integer / float dtype
+            [k |-> "op", h |-> 2, f |-> "where", a |-> <<Opnd(1), [s |-> Q(9)]>>, cond |-> [sh |-> <<3>>, v |-> <<TRUE, FALSE, TRUE>>], cs |-> "i8"],
+            [k |-> "op", h |-> 2, f |-> "where", a |-> <<[s |-> Q(9)], Opnd(1)>>, cond |-> [sh |-> <<2, 1>>, v |-> <<FALSE, TRUE>>], cs |-> "i1"],
+            [k |-> "op", h |-> 2, f |-> "where", a |-> <<[arr |-> [sh |-> <<3>>, v |-> Vec(3, "B")]], Opnd(1)>>, cond |-> [sh |-> <<3>>, v |-> <<TRUE, TRUE, FALSE>>], cs |-> "f8"]}}
   \* broadcast_to stretching inner / several / leading axes of length 1
   \cup {<< Leaf(1, c[1], "A", FALSE), [k |-> "op", h |-> 2, f |-> "broadcast_to", a |-> <<Opnd(1)>>, sh |-> c[2]] >> :
           c \in {<<<<3, 1>>, <<3, 4>>>>, <<<<2, 1, 3>>, <<2, 2, 3>>>>, <<<<1, 3>>, <<2, 3>>>>, <<<<3, 1>>, <<2, 3, 2>>>>,
